@@ -105,12 +105,13 @@ PLANS = {
                        "nothing is written when generation fails",
     },
     "C11": {
-        "targets": ["fcp.parser:_get_fcp", "fcp.parser:get_fcp_from_string", "fcp.parser:FcpV2Transformer.mod_expr"],
+        "targets": ["fcp.parser:_get_fcp", "fcp.parser:get_fcp_from_string", "fcp.parser:FcpV2Transformer.mod_expr", "fcp.error:Logger.add_source"],
         "native": "parse",
         "trusted": [
             "ASSUMED raise sets of lark 1.3.1: Lark.parse raises only UnexpectedCharacters/UnexpectedEOF and terminates; Transformer.transform "
             "wraps every callback exception into VisitError",
-            "assumed no-raise contracts: FcpV2Transformer.__init__, Logger.add_source, Logger.log_lark, the filesystem proxy read of the root file",
+            "assumed no-raise contracts: FcpV2Transformer.__init__, Logger.log_lark, the filesystem proxy read of the root file "
+            "(Logger.add_source is proved: one dict store)",
             "Logger.error (rendering, cited line exists) is NOT under contract; only the native replay exercises it",
         ],
         "explanation": "exceptional postconditions: on every path of _get_fcp the assumed lark exceptions are caught and turned into error "
